@@ -100,6 +100,48 @@ func orderOf(fset *token.FileSet, fn *ast.FuncDecl, snippets []string) []int {
 
 var freshCalls = map[string]bool{"emptyNodePointer": true, "emptyNode": true, "xcopy": true, "ToMut": true, "extract": true, "new": true}
 
+// derivedMakers: functions of the package that only ever return a node they have just made (every
+// return statement's first result is a fresh expression, or a local that holds one there): a
+// helper extracted around a composite literal, `emptyNode`, `xcopy` … is as good as the literal.
+// Computed as a fixpoint over the analysed files and merged into freshCalls for the run.
+func derivedMakers(fset *token.FileSet, files []string) {
+	var fds []*ast.FuncDecl
+	for _, rel := range files {
+		f := parseFile(fset, rel)
+		for _, d := range f.Decls {
+			if fd, ok := d.(*ast.FuncDecl); ok && fd.Body != nil && fd.Type.Results != nil && len(fd.Type.Results.List) > 0 {
+				fds = append(fds, fd)
+			}
+		}
+	}
+	for changed := true; changed; {
+		changed = false
+		for _, fd := range fds {
+			if freshCalls[fd.Name.Name] {
+				continue
+			}
+			asg := assignmentsOf(fd)
+			rets, ok := 0, true
+			ast.Inspect(fd.Body, func(n ast.Node) bool {
+				if _, isLit := n.(*ast.FuncLit); isLit {
+					return false
+				}
+				if r, isRet := n.(*ast.ReturnStmt); isRet {
+					rets++
+					if len(r.Results) == 0 || !(isFreshExpr(r.Results[0]) || provenance(asg, r.Results[0], r.Pos()) == "fresh") {
+						ok = false
+					}
+				}
+				return true
+			})
+			if ok && rets > 0 {
+				freshCalls[fd.Name.Name] = true
+				changed = true
+			}
+		}
+	}
+}
+
 func isFreshExpr(e ast.Expr) bool {
 	switch x := e.(type) {
 	case *ast.ParenExpr:
@@ -133,7 +175,29 @@ func assignmentsOf(fd *ast.FuncDecl) map[string][]assignAt {
 		if !ok {
 			return
 		}
-		out[id.Name] = append(out[id.Name], assignAt{pos, rhs != nil && isFreshExpr(rhs)})
+		fresh := rhs != nil && isFreshExpr(rhs)
+		if !fresh && rhs != nil {
+			// `b := a` / `p := &a` where `a` holds a node made here (assignments are visited in
+			// source order, so the latest one recorded so far is the one in force)
+			e := rhs
+			for {
+				if u, ok := e.(*ast.UnaryExpr); ok && u.Op == token.AND {
+					e = u.X
+					continue
+				}
+				if pe, ok := e.(*ast.ParenExpr); ok {
+					e = pe.X
+					continue
+				}
+				break
+			}
+			if src, ok := e.(*ast.Ident); ok {
+				if as := out[src.Name]; len(as) > 0 {
+					fresh = as[len(as)-1].fresh
+				}
+			}
+		}
+		out[id.Name] = append(out[id.Name], assignAt{pos, fresh})
 	}
 	ast.Inspect(fd.Body, func(n ast.Node) bool {
 		switch st := n.(type) {
@@ -350,6 +414,176 @@ func stateEvents(fset *token.FileSet, fn *ast.FuncDecl) []string {
 		i = j
 	}
 	return norm
+}
+
+// writesThenFallible: the set of pairs "W m.f before F callee" such that, on SOME control path of
+// the function, the tree field is assigned and the fallible call (one whose error is assigned to
+// `err`) runs afterwards.  Path-sensitive where it matters for harmless rewrites: the branches of
+// an if / switch are alternatives (a write in one is not before a call in the other), a branch
+// that returns does not flow on, a loop body is walked twice (a write in one round, a call in the
+// next).  `install` names callees that assign a field themselves (savePathForRoot installs the
+// root).  Swapping branches, renaming locals, hoisting expressions or extracting helpers that
+// make no fallible call leaves the set as it is; moving an assignment ahead of a fallible call
+// adds a pair.
+func writesThenFallible(fset *token.FileSet, fn *ast.FuncDecl, install map[string]string) []string {
+	recv := "m"
+	if fn.Recv != nil && len(fn.Recv.List) > 0 && len(fn.Recv.List[0].Names) > 0 {
+		recv = fn.Recv.List[0].Names[0].Name
+	}
+	pairs := map[string]bool{}
+	isState := func(e ast.Expr) (string, bool) {
+		sel, ok := e.(*ast.SelectorExpr)
+		if !ok {
+			return "", false
+		}
+		id, ok := sel.X.(*ast.Ident)
+		if !ok || id.Name != recv {
+			return "", false
+		}
+		return "m." + sel.Sel.Name, true
+	}
+	callee := func(e ast.Expr) string {
+		switch x := e.(type) {
+		case *ast.SelectorExpr:
+			return x.Sel.Name
+		case *ast.Ident:
+			return x.Name
+		}
+		return exprString(fset, e)
+	}
+	copySet := func(m map[string]bool) map[string]bool {
+		o := map[string]bool{}
+		for k := range m {
+			o[k] = true
+		}
+		return o
+	}
+	union := func(a, b map[string]bool) map[string]bool {
+		o := copySet(a)
+		for k := range b {
+			o[k] = true
+		}
+		return o
+	}
+	var block func(list []ast.Stmt, w map[string]bool) (map[string]bool, bool)
+	var stmt func(st ast.Stmt, w map[string]bool) (map[string]bool, bool)
+	simple := func(st ast.Stmt, w map[string]bool) map[string]bool {
+		switch x := st.(type) {
+		case *ast.IncDecStmt:
+			if f, ok := isState(x.X); ok {
+				w = copySet(w)
+				w[f] = true
+			}
+		case *ast.AssignStmt:
+			fallible := false
+			for _, l := range x.Lhs {
+				if id, ok := l.(*ast.Ident); ok && id.Name == "err" {
+					fallible = true
+				}
+			}
+			if fallible && len(x.Rhs) == 1 {
+				if c, ok := x.Rhs[0].(*ast.CallExpr); ok {
+					name := callee(c.Fun)
+					for f := range w {
+						pairs["W "+f+" before F "+name] = true
+					}
+					if f, ok := install[name]; ok {
+						w = copySet(w)
+						w[f] = true
+					}
+				}
+			}
+			for _, l := range x.Lhs {
+				if f, ok := isState(l); ok {
+					w = copySet(w)
+					w[f] = true
+				}
+			}
+		}
+		return w
+	}
+	stmt = func(st ast.Stmt, w map[string]bool) (map[string]bool, bool) {
+		switch x := st.(type) {
+		case nil:
+			return w, false
+		case *ast.BlockStmt:
+			return block(x.List, w)
+		case *ast.ReturnStmt:
+			return w, true
+		case *ast.IfStmt:
+			if x.Init != nil {
+				w = simple(x.Init, w)
+			}
+			w1, t1 := block(x.Body.List, w)
+			w2, t2 := w, false
+			if x.Else != nil {
+				w2, t2 = stmt(x.Else, w)
+			}
+			switch {
+			case t1 && t2:
+				return w, true
+			case t1:
+				return w2, false
+			case t2:
+				return w1, false
+			}
+			return union(w1, w2), false
+		case *ast.ForStmt:
+			if x.Init != nil {
+				w = simple(x.Init, w)
+			}
+			w1, _ := block(x.Body.List, w)
+			w2, _ := block(x.Body.List, union(w, w1))
+			return union(w, w2), false
+		case *ast.RangeStmt:
+			w1, _ := block(x.Body.List, w)
+			w2, _ := block(x.Body.List, union(w, w1))
+			return union(w, w2), false
+		case *ast.SwitchStmt, *ast.TypeSwitchStmt, *ast.SelectStmt:
+			var body *ast.BlockStmt
+			switch y := x.(type) {
+			case *ast.SwitchStmt:
+				if y.Init != nil {
+					w = simple(y.Init, w)
+				}
+				body = y.Body
+			case *ast.TypeSwitchStmt:
+				body = y.Body
+			case *ast.SelectStmt:
+				body = y.Body
+			}
+			out := copySet(w)
+			for _, c := range body.List {
+				var list []ast.Stmt
+				switch cc := c.(type) {
+				case *ast.CaseClause:
+					list = cc.Body
+				case *ast.CommClause:
+					list = cc.Body
+				}
+				if wc, t := block(list, w); !t {
+					out = union(out, wc)
+				}
+			}
+			return out, false
+		case *ast.LabeledStmt:
+			return stmt(x.Stmt, w)
+		default:
+			return simple(st, w), false
+		}
+	}
+	block = func(list []ast.Stmt, w map[string]bool) (map[string]bool, bool) {
+		for _, st := range list {
+			var t bool
+			w, t = stmt(st, w)
+			if t {
+				return w, true
+			}
+		}
+		return w, false
+	}
+	block(fn.Body.List, map[string]bool{})
+	return sortedSet(pairs)
 }
 
 // writesBeforeLastFallible: state writes that are followed by a fallible call other than the
@@ -619,30 +853,33 @@ func collectFacts(group string) map[string]interface{} {
 		if sp == nil {
 			sp = findFunc(pf, "*Mast", "savePathForRoot")
 		}
-		if sp != nil {
-			facts["savePathForRoot.events"] = stateEvents(fset, sp)
-		}
-		// savePathForRoot installs the new root: count its call as a write of m.root
-		withInstall := func(ev []string) []string {
-			var out []string
-			for _, e := range ev {
-				out = append(out, e)
-				if e == "F savePathForRoot" {
-					out = append(out, "W m.root (installed by savePathForRoot)")
+		// which tree fields each function assigns at all (a set: no order, no multiplicity)
+		fieldsOf := func(fn *ast.FuncDecl) []string {
+			set := map[string]bool{}
+			for _, e := range stateEvents(fset, fn) {
+				if strings.HasPrefix(e, "W ") {
+					set[e] = true
 				}
 			}
-			return out
+			return sortedSet(set)
 		}
-		ie, de := withInstall(stateEvents(fset, ins)), withInstall(stateEvents(fset, del))
-		facts["Insert.events"] = ie
-		facts["Delete.events"] = de
-		facts["grow.events"] = stateEvents(fset, gr)
-		facts["shrink.events"] = stateEvents(fset, sh)
-		// the tree's fields are assigned only after the last fallible call, apart from the height
-		// step (canGrow / grow, shrink) that runs after the change is installed: known finding
-		facts["Insert.state_writes_before_other_fallible_calls"] = writesBeforeFallible(ie, map[string]bool{"canGrow": true, "grow": true})
-		facts["Delete.state_writes_before_other_fallible_calls"] = writesBeforeFallible(de, map[string]bool{"shrink": true})
+		if sp != nil {
+			facts["savePathForRoot.fields_written"] = fieldsOf(sp)
+		}
+		facts["Insert.fields_written"] = fieldsOf(ins)
+		facts["Delete.fields_written"] = fieldsOf(del)
+		facts["grow.fields_written"] = fieldsOf(gr)
+		facts["shrink.fields_written"] = fieldsOf(sh)
+		// a tree field assigned and a fallible call made afterwards on some path: in Insert / Delete
+		// only the height step (canGrow / grow, shrink) runs after the change is installed — the
+		// recorded C12 finding; in grow / shrink every assignment follows the last fallible call
+		inst := map[string]string{"savePathForRoot": "m.root"}
+		facts["Insert.write_then_fallible"] = writesThenFallible(fset, ins, inst)
+		facts["Delete.write_then_fallible"] = writesThenFallible(fset, del, inst)
+		facts["grow.write_then_fallible"] = writesThenFallible(fset, gr, inst)
+		facts["shrink.write_then_fallible"] = writesThenFallible(fset, sh, inst)
 	case "writes":
+		derivedMakers(fset, []string{"lib.go", "pub.go", "store.go", "diff.go", "codec.go"})
 		facts["node_writes"] = nodeWrites(fset, []string{"lib.go", "pub.go", "store.go", "diff.go", "codec.go"})
 		facts["node_slice_shares"] = nodeSliceShares(fset, []string{"lib.go", "pub.go", "store.go", "diff.go", "codec.go"})
 	case "filestore":
